@@ -176,7 +176,10 @@ impl DocumentBuilder<'_> {
         // type already commits to. Objects can't appear in the
         // interface graph, so no cycle protection is needed.
         let existing_field_signatures = field_signatures_for(&self.object_type_defs, &name);
-        let implements_interfaces = self.additional_implements(&existing_field_signatures, None)?;
+        // An extension must also skip the interfaces the type already implements.
+        let extended = extend.then(|| name.clone());
+        let implements_interfaces =
+            self.additional_implements(&existing_field_signatures, extended.as_ref())?;
         let exclude_fields: IndexSet<Name> = existing_field_signatures
             .keys()
             .map(|k| Name::new(k.clone()))
